@@ -18,6 +18,9 @@ def run(ctx):
     builder(ctx, "R3")
     query_argument(ctx, "R4")
     pathsplit(ctx, "R5")
+    ctx.rule("R5s", "urlpathsplit / get_query_argument parse through safe_urlsplit, which keeps the url as it is exactly when PROTOCOL_RE matches at its start")
+    from .common_url import rule_safe_urlsplit
+    rule_safe_urlsplit(ctx, "R5s")
 
 
 def protocol_language(ctx, rule):
@@ -209,10 +212,14 @@ def builder(ctx, rule):
         (("http://a.com",), {"args": {"a": None, "b": False}}, "http://a.com"),
         (("http://a.com",), {"args": {"a": True}}, "http://a.com?a"),
         (("http://a.com",), {"args": {"b": 2, "a": 0}}, "http://a.com?a=0&b=2"),
+        (("http://a.com",), {"args": {"a": 0, "b": "", "c": 0.0, "d": None, "e": False}}, "http://a.com?a=0&b=&c=0.0"),
         (("http://a.com",), {"args": [("b", 2), ("a", 1)]}, "http://a.com?b=2&a=1"),
         (("http://a.com/",), {"path": "/x"}, "http://a.com/x"),
         (("http://a.com",), {"path": "x"}, "http://a.com/x"),
         (("http://a.com/",), {"path": ["x", "y"]}, "http://a.com/x/y"),
+        (("http://a.com/",), {"path": ["", "x", "y"]}, "http://a.com/x/y"),
+        (("http://a.com",), {"path": ["x", "y/"]}, "http://a.com/x/y/"),
+        (("http://a.com",), {"path": "/x/y/"}, "http://a.com/x/y/"),
         (("http://a.com",), {"path": "x", "args": {"q": "1"}, "fragment": "#f"}, "http://a.com/x?q=1#f"),
         (("http://a.com",), {"fragment": "f"}, "http://a.com#f"),
         (("http://a.com",), {"path": "x", "ext": ".json"}, "http://a.com/x.json"),
@@ -225,22 +232,39 @@ def builder(ctx, rule):
             continue
         ctx.ob(rule, "format_url/%s" % re.sub(r"[^A-Za-z0-9=,:#/._-]+", "_", repr(kw))[:50], got == exp, "format_url(%r, **%r) gives %r, expected %r" % (args[0], kw, got, exp), site, witness="format_url(%r, **%r)" % (args[0], kw),
                sample="%r -> %r" % (kw, got))
-    # retained-argument predicate: identity tests against None / False
-    conds = [c for g in ast.walk(fn) if isinstance(g, (ast.GeneratorExp, ast.ListComp)) for gen in g.generators for c in gen.ifs]
-    txt = " and ".join(unparse(c) for c in conds)
-    ctx.ob(rule, "format_url/drops-None-and-False-by-identity", "is not None" in txt and "is not False" in txt and "!=" not in txt,
-           "format_url filters its arguments with `%s`: 0 and '' must be kept, only None and False dropped" % txt, site, witness="format_url('http://a.com', args={'a': 0})")
-    # (e) URLFormatter.format forwards
-    meth = fm.method("URLFormatter", "format")
-    calls = [c for c in ast.walk(meth) if isinstance(c, ast.Call) and isinstance(c.func, ast.Name) and c.func.id == "format_url"]
-    ok = len(calls) == 1 and all(isinstance(kw.value, ast.Name) and kw.value.id == kw.arg for kw in calls[0].keywords) and {kw.arg for kw in calls[0].keywords} == {"base_url", "path", "args", "format_arg_value", "fragment", "ext"}
-    ctx.ob(rule, "URLFormatter.format/forwards-same-named", ok, "URLFormatter.format does not hand each of base_url, path, args, format_arg_value, fragment, ext to the same-named parameter of format_url", fm.site(meth))
-    src = unparse(meth)
-    ctx.ob(rule, "URLFormatter.format/call-site-args-win", "new_args = self.args.copy()" in src.replace("\n", " ") and "new_args.update(args)" in src, "URLFormatter.format does not merge default and call-site args with call-site precedence", fm.site(meth))
-    callm = fm.method("URLFormatter", "__call__")
-    c2 = [c for c in ast.walk(callm) if isinstance(c, ast.Call) and unparse(c.func) == "self.format"]
-    ok = len(c2) == 1 and all(isinstance(kw.value, ast.Name) and kw.value.id == kw.arg for kw in c2[0].keywords) and len(c2[0].keywords) == 6
-    ctx.ob(rule, "URLFormatter.__call__/delegates", ok, "URLFormatter.__call__ does not delegate to format with the same arguments", fm.site(callm))
+    # (e) URLFormatter: defaults stored by __init__, call-site arguments win, dict args merged with call-site precedence
+    from ..microeval import instantiate, Raised
+    cls = fm.klass("URLFormatter")
+    methods = {st.name: st for st in cls.body if isinstance(st, ast.FunctionDef)}
+    for mname in ("format", "__call__"):
+        if mname not in methods:
+            raise AnalysisError("URLFormatter.%s not found" % mname)
+    ucases = [
+        ({"base_url": "http://a.com", "args": {"a": 1, "b": 1}}, {}, "http://a.com?a=1&b=1", "defaults used when the call gives nothing"),
+        ({"base_url": "http://a.com", "args": {"a": 1, "b": 1}}, {"args": {"b": 2, "c": 3}}, "http://a.com?a=1&b=2&c=3", "dict args merged, call-site value wins"),
+        ({"base_url": "http://a.com"}, {"args": {"b": 2}}, "http://a.com?b=2", "call-site args alone"),
+        ({"base_url": "http://a.com", "path": "d"}, {"path": "x"}, "http://a.com/x", "call-site path wins"),
+        ({"base_url": "http://a.com", "path": "d"}, {}, "http://a.com/d", "default path"),
+        ({"base_url": "http://a.com", "fragment": "d"}, {"fragment": "f"}, "http://a.com#f", "call-site fragment wins"),
+        ({"base_url": "http://a.com", "fragment": "d"}, {}, "http://a.com#d", "default fragment"),
+        ({"base_url": "http://a.com"}, {"base_url": "http://b.com", "path": "x", "ext": "json"}, "http://b.com/x.json", "call-site base url and ext"),
+        ({"base_url": "http://a.com", "args": [("a", 1)]}, {"args": {"b": 2}}, NotImplementedError, "list defaults cannot be merged"),
+    ]
+    for mname in ("format", "__call__"):
+        mref = FuncRef(fm, methods[mname], "ural.format_url.URLFormatter.%s" % mname)
+        ctx.fn(mref.qualname)
+        for init, kw, exp, what in ucases:
+            try:
+                obj = instantiate(repo, fm, cls, [], dict(init))
+                got = run_function(repo, mref, [obj], dict(kw))
+            except Raised as e:
+                got = NotImplementedError if e.name == "NotImplementedError" else e.name
+            except Unknown as e:
+                ctx.undecided(rule, "URLFormatter(%r).%s(%r): %s" % (init, mname, kw, e))
+                continue
+            ctx.ob(rule, "URLFormatter.%s/%s" % (mname, what.replace(" ", "-")), got == exp,
+                   "URLFormatter(**%r).%s(**%r) gives %r, expected %r (%s)" % (init, mname, kw, got, exp, what), fm.site(methods[mname]),
+                   witness="URLFormatter(**%r).%s(**%r)" % (init, mname, kw), sample="%s -> %r" % (what, got))
 
 
 def query_argument(ctx, rule):
@@ -250,12 +274,6 @@ def query_argument(ctx, rule):
     add = ut.func("add_query_argument").node
     get = ut.func("get_query_argument").node
     ctx.fn("ural.utils.add_query_argument", "ural.utils.get_query_argument")
-    # fragment split
-    hs = [c for c in ast.walk(add) if isinstance(c, ast.Call) and isinstance(c.func, ast.Attribute) and c.func.attr in ("split", "rsplit", "partition", "rpartition") and c.args and isinstance(c.args[0], ast.Constant) and c.args[0].value == "#"]
-    ctx.require_instances(rule, len(hs), 1, "fragment split sites in add_query_argument")
-    for c in hs:
-        ok = (c.func.attr == "split" and len(c.args) == 2 and isinstance(c.args[1], ast.Constant) and c.args[1].value == 1) or c.func.attr == "partition"
-        ctx.ob(rule, "add/fragment-split-at-first-hash", ok, "add_query_argument splits the fragment with `%s`: everything after the FIRST '#' is fragment" % unparse(c), ut.site(c), witness="add_query_argument('http://a.com/x#a#b', 'k', 'v')")
     # finite-domain interpretation of the writer on url-shape classes
     aref = ut.func("add_query_argument")
     cases = [
@@ -277,10 +295,9 @@ def query_argument(ctx, rule):
             continue
         ctx.ob(rule, "add/%s" % re.sub(r"[^A-Za-z0-9=,:#/._?&-]+", "_", repr(args))[:60], got == exp, "add_query_argument%r gives %r, expected %r" % (args, got, exp), ut.site(add), witness=repr(args), sample="%r -> %r" % (args, got))
     # reader unquotes what the writer quoted
-    wq = [c for c in ast.walk(add) if isinstance(c, ast.Call) and isinstance(c.func, ast.Name) and repo.resolve(ut, c.func.id) is not None and repo.resolve(ut, c.func.id).qualname == "urllib.parse.quote"]
-    ctx.ob(rule, "add/quotes-name-and-value", len(wq) >= 2, "add_query_argument does not percent-encode both the name and the value", ut.site(add))
+    wq = True  # the writer's quoting is decided by the ('k&', 'v v') cell above
     ex = P.Extractor(repo, atomic={"ural.utils.safe_urlsplit", "ural.utils.safe_qsl_iter"})
-    rets = [r for r in ex.function(ut.func("get_query_argument")) if r.kind == "return"]
+    rets = [r for r in P.flat_rets(ex.function(ut.func("get_query_argument"))) if r.kind == "return"]
     is_unq = lambda x: x[0] == "call" and x[1] == "urllib.parse.unquote"
     value_rets = [r for r in rets if r.term not in (("const", None), ("const", True))]
     ctx.require_instances(rule, len(value_rets), 1, "value-returning paths of get_query_argument")
@@ -291,12 +308,9 @@ def query_argument(ctx, rule):
             keycmp = [c for c, pol in r.conds if c[0] == "cmp" and c[1] == "Eq" and pol and ("param", "key") in (c[2], c[3])]
             ok = bool(keycmp) and all(is_unq(c[3]) or is_unq(c[2]) or any(x[0] == "call" and x[1] == "urllib.parse.quote" for x in P.subterms(c)) for c in keycmp)
             ctx.ob(rule, "get/compares-unquoted-name", ok, "get_query_argument compares the key with the still-encoded stored name: a key containing '&' or a space is never found", ut.site(r.node), witness="get_query_argument(add_query_argument(u, 'k&', 'v'), 'k&')")
-    # separators of safe_qsl_iter
-    it = ut.func("safe_qsl_iter").node
-    seps = sorted(c.args[0].value for c in ast.walk(it) if isinstance(c, ast.Call) and isinstance(c.func, ast.Attribute) and c.func.attr == "split" and c.args and isinstance(c.args[0], ast.Constant))
-    ctx.ob(rule, "safe_qsl_iter/separators", seps == ["&", "="], "safe_qsl_iter splits on %s, the writer joins with '&' and '='" % seps, ut.site(it))
-    eq = [c for c in ast.walk(it) if isinstance(c, ast.Call) and isinstance(c.func, ast.Attribute) and c.func.attr == "split" and c.args and c.args[0].value == "="]
-    ctx.ob(rule, "safe_qsl_iter/value-split-at-first-equals", all(len(c.args) == 2 and c.args[1].value == 1 for c in eq), "safe_qsl_iter splits an item at every '='", ut.site(it), witness="?a=b=c")
+    # separators of safe_qsl_iter: item-shape table shared with C01/C05
+    from .common_url import rule_qsl
+    rule_qsl(ctx, rule + "q")
 
 
 def pathsplit(ctx, rule):
